@@ -576,6 +576,68 @@ fn shell_option_spellings(ctx: &mut Ctx, r: &mut StdRng) {
     ctx.scratch.discard(&parent);
 }
 
+/// Every run directive is executed, with its own source's TXTPP_FILE, even when several sources of
+/// one directory (or one source, twice) use the very same command text; and the default shell is
+/// `sh -c` whatever the environment's `SHELL` says.
+fn same_command_and_environment(ctx: &mut Ctx, r: &mut StdRng) {
+    let root = ctx.scratch.fresh();
+    let log = ctx.scratch.root.join("logs").join("same-cmd.log");
+    let _ = std::fs::create_dir_all(log.parent().unwrap());
+    let _ = std::fs::remove_file(&log);
+    let cmd = format!("echo \"$TXTPP_FILE\"; echo ran >> {}", log.display());
+    let mut files = Files::new();
+    for n in ["a", "b", "c"] {
+        files.insert(format!("gen/{n}.txt.txtpp"), format!("{n} head\n-TXTPP#run {cmd}\n=\n-TXTPP#run {cmd}\n{n} tail\n").into_bytes());
+    }
+    // b waits for a, c for b: the executions are ordered
+    files.insert("gen/b.txt.txtpp".into(), format!("-TXTPP#after a.txt\nb head\n-TXTPP#run {cmd}\n=\n-TXTPP#run {cmd}\nb tail\n").into_bytes());
+    files.insert("gen/c.txt.txtpp".into(), format!("-TXTPP#after b.txt\nc head\n-TXTPP#run {cmd}\n=\n-TXTPP#run {cmd}\nc tail\n").into_bytes());
+    materialize(&root, &files, &[]);
+    let via_cli = r.gen_bool(0.5);
+    let threads = [1usize, 2, 4][r.gen_range(0..3)];
+    let shell_env = ["/bin/false", "/usr/sbin/nologin", "/nonexistent/fish", ""][r.gen_range(0..4)];
+    let cfg = RunCfg { base: root.clone(), inputs: vec!["gen".into()], mode: Mode::Build, threads, recursive: false, trailing: true, shell: String::new() };
+    let cj = json!({"kind": "same-command", "via_cli": via_cli, "threads": threads, "SHELL": shell_env});
+    let ok = if via_cli {
+        let o = run_cli(&root, &cfg.cli_args(), &CliOpts { env: vec![("SHELL".into(), shell_env.into())], ..Default::default() });
+        if o.timed_out {
+            ctx.inconclusive("CLI watchdog (same command)");
+            ctx.scratch.discard(&root);
+            return;
+        }
+        o.code == Some(0)
+    } else {
+        let o = run_inproc(&cfg, Spec::Free { delay: None }, Some(&root), false);
+        let _ = std::env::set_current_dir("/");
+        if matches!(o.verdict, Verdict::Watchdog) {
+            ctx.inconclusive("watchdog (same command)");
+            ctx.scratch.discard(&root);
+            return;
+        }
+        o.verdict.is_ok()
+    };
+    ctx.evals += 1;
+    ctx.count("same_command_cases", 1);
+    if !ok {
+        ctx.violation("C17:run-failed:same-command", format!("build with plain `echo` commands failed (via_cli {via_cli}, environment SHELL={shell_env:?}): the default shell must be `sh -c`"), cj.clone());
+    } else {
+        let ran = std::fs::read_to_string(&log).unwrap_or_default().lines().count();
+        if ran != 6 {
+            ctx.violation("C17:command-not-executed", format!("three sources x two identical run directives: the command ran {ran} time(s), expected 6"), cj.clone());
+        }
+        for n in ["a", "b", "c"] {
+            let out = String::from_utf8_lossy(&std::fs::read(root.join(format!("gen/{n}.txt"))).unwrap_or_default()).to_string();
+            let designated: Vec<&str> = out.lines().filter(|l| l.contains(".txtpp")).collect();
+            let own = format!("{n}.txt.txtpp");
+            if designated.len() != 2 || designated.iter().any(|l| !l.ends_with(&own)) {
+                ctx.violation("C17:txtpp-file-wrong:same-command", format!("gen/{n}.txt: the two commands printed TXTPP_FILE as {designated:?}, expected two designations of gen/{own}"), cj.clone());
+            }
+        }
+    }
+    ctx.distinct.insert(crate::util::hash_str(&cj.to_string()));
+    ctx.scratch.discard(&root);
+}
+
 fn guard_checks(ctx: &mut Ctx) {
     // the binary refuses to start when TXTPP_FILE is set
     let root = ctx.scratch.fresh();
@@ -660,6 +722,9 @@ fn run(ctx: &mut Ctx) {
         if i % 16 == 1 {
             shell_option_spellings(ctx, &mut r);
         }
+        if i % 16 == 9 {
+            same_command_and_environment(ctx, &mut r);
+        }
         if i == 0 {
             ctx.sample(|| c.json());
         }
@@ -669,6 +734,13 @@ fn run(ctx: &mut Ctx) {
 fn replay(ctx: &mut Ctx, v: &Value) {
     if v["kind"].as_str() == Some("guard") {
         guard_checks(ctx);
+        return;
+    }
+    if v["kind"].as_str() == Some("same-command") {
+        let mut r = StdRng::seed_from_u64(17);
+        for _ in 0..16 {
+            same_command_and_environment(ctx, &mut r);
+        }
         return;
     }
     if v["kind"].as_str() == Some("shell-spellings") {
